@@ -1,8 +1,10 @@
 // libtopology harness (C13): topology-preserving layout steps on scenes of non-overlapping nodes with straight
 // edges, driven (as in production) through ConstrainedFDLayout + ColaTopologyAddon by dragging one node.
 //   h_topo run <scenes.txt> <out.json>
-// scene line: n (x y w h)*n  m (u v)*m  drag  steps dx dy  rz rw rh   (integers; node indices 0-based; rz = -1: no resize,
-//             otherwise node rz is given width rw and height rh about its centre through topology::applyResizes after the drag)
+// scene line: n (x y w h)*n  m (u v)*m  drag  steps dx dy  rz rw rh   reuse  drag2 steps2 d2   (integers; node indices 0-based; rz = -1: no resize,
+//             otherwise node rz is given width rw and height rh about its centre through topology::applyResizes after the drag;
+//             reuse = 1 (single-axis drags only): ONE TopologyConstraints instance serves all steps, the desired positions change between its solves;
+//             drag2 >= 0 (with reuse): after the first drag a second node is dragged steps2 times by d2 along the same axis, same instance)
 // After every alg.run() the state is recorded: node rectangles and every edge path as (node, corner) points.
 #include "vtrace.h"
 #include <fstream>
@@ -42,9 +44,9 @@ int main(int argc, char **argv)
         for (auto &g : geo) { in >> g[0] >> g[1] >> g[2] >> g[3]; rs.push_back(new vpsc::Rectangle(g[0], g[0] + g[2], g[1], g[1] + g[3])); }
         int m; in >> m; std::vector<cola::Edge> es(m);
         for (auto &e : es) { int u, v; in >> u >> v; e = std::make_pair((unsigned)u, (unsigned)v); }
-        int drag, steps, dx, dy, rz, rw, rh; in >> drag >> steps >> dx >> dy >> rz >> rw >> rh;
+        int drag, steps, dx, dy, rz, rw, rh, reuse, drag2, steps2, d2; in >> drag >> steps >> dx >> dy >> rz >> rw >> rh >> reuse >> drag2 >> steps2 >> d2;
         vt::J j; j.obj().k("n").i(n).k("edges").arr(); for (auto &e : es) j.arr().i(e.first).i(e.second).end(); j.end();
-        j.k("drag").i(drag).k("dx").i(dx).k("dy").i(dy).k("rz").i(rz).k("rw").i(rw).k("rh").i(rh);
+        j.k("drag").i(drag).k("dx").i(dx).k("dy").i(dy).k("rz").i(rz).k("rw").i(rw).k("rh").i(rh).k("reuse").i(reuse).k("drag2").i(drag2).k("steps2").i(steps2).k("d2").i(d2);
         topology::Nodes vs;
         for (size_t i = 0; i < rs.size(); i++) vs.push_back(new topology::Node(i, rs[i]));
         topology::Edges tes;
@@ -62,6 +64,28 @@ int main(int argc, char **argv)
             // what ColaTopologyAddon::moveTo does, one axis at a time, recorded after every solve()
             vpsc::Variables vars;
             for (size_t i = 0; i < vs.size(); i++) vars.push_back(new vpsc::Variable((int)i));
+            if (reuse && (dx == 0) != (dy == 0)) {
+                // one instance for the whole drag: the constraints it built are maintained by its own solves
+                int dimIdx = dx != 0 ? 0 : 1, delta = dx != 0 ? dx : dy;
+                vpsc::Dim dim = dimIdx == 0 ? vpsc::XDIM : vpsc::YDIM;
+                for (size_t i = 0; i < vs.size(); i++) { vars[i]->desiredPosition = rs[i]->getCentreD(dim); vars[i]->weight = ((int)i == drag) ? 10000 : 1; }
+                topology::setNodeVariables(vs, vars);
+                vpsc::Constraints cs;
+                {
+                    topology::TopologyConstraints t(dim, vs, tes, nullptr, vars, cs);
+                    for (int phase = 0; phase < 2; phase++) {
+                        int who = phase == 0 ? drag : drag2, n = phase == 0 ? steps : steps2, by = phase == 0 ? delta : d2;
+                        if (who < 0) continue;
+                        for (size_t i = 0; i < vs.size(); i++) vars[i]->weight = ((int)i == who) ? 10000 : 1;
+                        for (int s = 0; s < n; s++) {
+                            for (size_t i = 0; i < vs.size(); i++) vars[i]->desiredPosition = rs[i]->getCentreD(dim) + ((int)i == who ? by : 0);
+                            bool interrupted; int loopBreaker = 100;
+                            do { interrupted = t.solve(); loopBreaker--; snapshot(j, vs, tes); dims.push_back(dimIdx); } while (interrupted && loopBreaker > 0);
+                        }
+                    }
+                }
+                for (auto c : cs) delete c;
+            } else
             for (int s = 0; s < steps; s++) {
                 for (int dimIdx = 0; dimIdx < 2; dimIdx++) {
                     int delta = dimIdx == 0 ? dx : dy;
